@@ -19,7 +19,7 @@ from .report import Verdict
 from .tlc import MachineryError, read_ndjson, run_tlc
 
 EXIT_KINDS = ["acm", "cm", "pusha", "pushs", "pushcm"]
-CB_KINDS = ["cba", "cbs"]
+CB_KINDS = ["cba", "cbs", "cbk"]
 
 
 class BlockError(Exception):
@@ -114,6 +114,11 @@ class World:
                 w.args_ok = False
             return w.core(e, beh, None)
 
+        def kcb(kw=None):        # registered with a keyword argument only
+            if kw != 1:
+                w.args_ok = False
+            return w.core(e, beh, None)
+
         class CBCM:  # what a callback is in terms of nested with-statements
             async def __aenter__(self):
                 return None
@@ -135,6 +140,8 @@ class World:
                 stack.push(ACM())
             elif ckind == "cba":
                 stack.callback(acb, "arg", kw=1)
+            elif ckind == "cbk":
+                stack.callback(kcb, kw=1)
             else:
                 stack.callback(scb, "arg", kw=1)
 
@@ -151,11 +158,25 @@ class World:
                 stack.push_async_exit(ACM())
             elif ckind == "cba":
                 stack.push_async_callback(acb, "arg", kw=1)
+            elif ckind == "cbk":
+                stack.callback(kcb, kw=1)
             else:
                 stack.callback(scb, "arg", kw=1)
 
         nest = CBCM() if ckind in CB_KINDS else (contextlib.nullcontext() if False else ACM())
         return reg_async, reg_std, nest
+
+
+class OuterError(Exception):
+    pass
+
+
+async def while_handling(make_aw):
+    """Await something inside an except block: another exception is `being handled` around it."""
+    try:
+        raise OuterError()
+    except OuterError:
+        return await make_aw()
 
 
 def run(aw, acct):
@@ -291,8 +312,12 @@ def _replay_path(args):
             w.current, w2.current = tgt, tstd
             nent0 = w.nent
             if op.startswith("aclose"):
-                res = run(tgt.aclose(), w.acct)
-                res2 = run(tstd.aclose(), w2.acct)
+                if salt % 2:     # aclose() unwinds with "no exception", whatever is being handled around it
+                    res = run(while_handling(tgt.aclose), w.acct)
+                    res2 = run(while_handling(tstd.aclose), w2.acct)
+                else:
+                    res = run(tgt.aclose(), w.acct)
+                    res2 = run(tstd.aclose(), w2.acct)
             else:
                 ev = w.block
                 res = run(tgt.__aexit__(type(ev) if ev else None, ev, None), w.acct)
